@@ -51,6 +51,35 @@ def option_origin(v):
     return None
 
 
+def _record_sharing(R, evs, yields, out):
+    """Containers handed to the consumer must be the consumer's own: not module/class-level objects,
+    not objects the reader keeps, not objects already handed out in an earlier record."""
+    from sa.dom import containers as _containers
+    self_obj = None
+    for e in evs:
+        if e.kind == 'enter' and e.data['callee'] is R.entry:
+            self_obj = e.data['locals'].get(R.entry.params()[0])
+            break
+    kept = {}
+    if self_obj is not None:
+        for k_, v_ in self_obj.attrs.items():
+            for oid, (o_, w_) in _containers(v_).items():
+                kept[oid] = 'self.%s' % k_
+    seen_rec = {}
+    for yi, y in enumerate(yields):
+        for oid, (o_, w_) in _containers(y.data['value']).items():
+            if not isinstance(o_, (ADict, AList)):
+                continue
+            sh = getattr(o_, 'shared', None)
+            if sh:
+                out['record_sharing'].add('%s is the module/class-level object %s' % (w_.replace('tree', 'record'), sh))
+            elif oid in kept:
+                out['record_sharing'].add('%s is also kept by the reader as %s' % (w_.replace('tree', 'record'), kept[oid]))
+            elif oid in seen_rec and seen_rec[oid] != yi:
+                out['record_sharing'].add('%s was already part of an earlier record' % w_.replace('tree', 'record'))
+            seen_rec.setdefault(oid, yi)
+
+
 def _task(X):
     P, R, table, var, loop, stubs = _CTX[:6]
     H = ReaderHarness(P, R, havoc=True, stub_content=False, unknown_iters=_CTX[6] if len(_CTX) > 6 else (1,))
@@ -65,7 +94,12 @@ def _task(X):
            'content_params': set(), 'problems': {}, 'raise_sites': set(), 'caught': set(), 'dict_reads': set(),
            'dict_other': set(), 'stores_per_pair': set(), 'key_compared': set(), 'sub_data': set(), 'sub_flags': set(),
            'order': set(), 'returned': set(), 'newline_checked': set(), 'version': set(), 'format': set(),
-           'yields_per_path': set(), 'le_values': set(), 'decode_enc': set(), 'util_encoding': set()}
+           'yields_per_path': set(), 'le_values': set(), 'decode_enc': set(), 'util_encoding': set(), 'record_sharing': set()}
+    paths0, _ex0 = H.paths([Script(X, options='none')], inject=(loop, lambda I: {var: row}), max_paths=30000)
+    for p in paths0:
+        ys0 = [e for e in p.events if e.kind == 'yield']
+        if ys0:
+            _record_sharing(R, p.events, ys0, out)
     for p in paths:
         evs = p.events
         yields = [e for e in evs if e.kind == 'yield']
@@ -76,6 +110,7 @@ def _task(X):
                 out['caught'].add((e.fn, exc_name(e.data['exc']), str(getattr(e.data['raise'], 'note', '') or ('raised in %s' % getattr(e.data['raise'], 'origin_fn', None)))[:80]))
         if not yields:
             continue
+        _record_sharing(R, evs, yields, out)
         out['yield_paths'] += 1
         out['yields_per_path'].add(len(yields))
         rec = yields[0].data['value']
